@@ -259,8 +259,8 @@ func VerifRun_C18d() {
 	dm := common.GConfig.GetDirManager()
 	dm.SetVSRootDir("/w")
 	dm.InitMainDir()
-	n := string(verifBytesIn("n", 1, "xy"))
-	fn := string([]byte{byte(verifConcretize(int(verifByteIn("fn", "xy"))))})
+	n := string(verifBytesIn("n", 1, "xe"))
+	fn := string([]byte{byte(verifConcretize(int(verifByteIn("fn", "xe"))))})
 	files := []string{"/w/m.lua"}
 	srcs := [][]byte{nil}
 	if verifBool("libfile") { // /w/lib/<fn>.lua
